@@ -391,8 +391,9 @@ def run(pm, ctx):
               msg='encoder/decoder no longer read the generated subtype tables',
               key='C04-R4|subtype-tables|read')
     gm = pm.func(PYTYPES + '.PythonTypesBackend._generate_enumerated_subtypes_tag_mapping')
-    loops = [n for n in own_nodes(gm.node) if isinstance(n, ast.For)]
-    srcs = [unparse(l.iter) for l in loops]
+    from ..model import element_sites
+    loops = element_sites(gm.node)
+    srcs = [unparse(l['iter']) for l in loops]
     emitted = [unparse(k.value) for c in own_nodes(gm.node) if isinstance(c, ast.Call)
                for k in c.keywords if k.arg == 'before']
     ctx.check('C04-R4', len(loops) == 2 and set(srcs) == {'data_type.get_all_subtypes_with_tags()'}
@@ -516,13 +517,14 @@ def run(pm, ctx):
     # both take the tag of get_all_subtypes_with_tags() as it is
     gm = pm.func('stone.backends.python_types.PythonTypesBackend.'
                  '_generate_enumerated_subtypes_tag_mapping')
-    loops = [l for l in own_nodes(gm.node) if isinstance(l, ast.For) and
-             isinstance(l.iter, ast.Call) and call_name(l.iter) == 'get_all_subtypes_with_tags'
-             and isinstance(l.target, ast.Tuple) and isinstance(l.target.elts[0], ast.Name)]
+    loops = [l for l in element_sites(gm.node)
+             if isinstance(l['iter'], ast.Call) and
+             call_name(l['iter']) == 'get_all_subtypes_with_tags' and
+             isinstance(l['target'], ast.Tuple) and isinstance(l['target'].elts[0], ast.Name)]
     bare = []
     for l in loops:
-        t = l.target.elts[0].id
-        fmts = [c for c in own_nodes(l) if isinstance(c, ast.Call) and
+        t = l['target'].elts[0].id
+        fmts = [c for c in ast.walk(l['elt']) if isinstance(c, ast.Call) and
                 isinstance(c.func, ast.Attribute) and c.func.attr == 'format']
         uses = [x for c in fmts for a in c.args for x in ast.walk(a)
                 if isinstance(x, ast.Name) and x.id == t]
